@@ -3,6 +3,7 @@ package wasifs
 import (
 	"encoding/binary"
 	"fmt"
+	"sort"
 
 	"verifharness/tape"
 	w "verifharness/wasiguest"
@@ -103,8 +104,10 @@ func (s *runState) opReaddir(class string) {
 		f.rdSeen = nil
 		f.rdDirty = false
 		f.rdUniverse = map[string]bool{}
+		f.rdTouched, f.rdTouchedAll, f.rdInitial = nil, false, map[string]bool{}
 		for n := range f.ino.kids {
 			f.rdUniverse[n] = true
+			f.rdInitial[n] = true
 		}
 	} else if !f.rdStarted {
 		// answered a non-zero cookie on a fresh descriptor: nothing to compare with
@@ -236,6 +239,29 @@ func (s *runState) opReaddir(class string) {
 			}
 		}
 	}
+	if f.rdDirty && !f.rdTouchedAll && !truncated && bufused < bufLen && cookie <= uint64(len(f.rdSeen)) {
+		// the directory changed while it was being read, and this call reached its end.  What happens to
+		// the entries that were created, removed or renamed meanwhile is open; every entry that was there
+		// when the pass began and was NOT touched must have been listed (once) if the pass was contiguous
+		contiguous := true
+		for _, n := range f.rdSeen {
+			if n == "" {
+				contiguous = false
+			}
+		}
+		if contiguous {
+			for n := range f.rdInitial {
+				if f.rdTouched[n] || f.ino.kids[n] == nil {
+					continue
+				}
+				if _, ok := dup[n]; !ok {
+					s.res.Fail("readdir-missing", "%s: the end of the directory was reached; other entries (%v) were created, removed or renamed during the pass, but %q existed before the pass began, was not touched, still exists, and was never listed", what, keysOf(f.rdTouched), n)
+					return
+				}
+			}
+			s.res.Stat("probe.readdir_pass_complete_although_the_directory_changed", 1)
+		}
+	}
 	if cookie == 0 {
 		f.rdCalls = 0
 	} else {
@@ -247,4 +273,13 @@ func (s *runState) opReaddir(class string) {
 		s.effects++
 	}
 	s.res.Logf("  = %d entries, bufused=%d truncated=%v", nFull, bufused, truncated)
+}
+
+func keysOf(m map[string]bool) []string {
+	var ks []string
+	for k := range m {
+		ks = append(ks, k)
+	}
+	sort.Strings(ks)
+	return ks
 }
